@@ -153,12 +153,23 @@ func (run *simRun) counters() map[string]uint64 {
 }
 
 func writeReplay(jb *job, res *runResult, run *simRun, tape *rt.Tape) string {
-	if jb.ReplayDir == "" || res.Violation == nil {
+	if jb.ReplayDir == "" || (res.Violation == nil && res.Infra == "") || run == nil {
 		return ""
 	}
 	_ = os.MkdirAll(jb.ReplayDir, 0755)
-	rf := replayFile{Property: res.Violation.Prop, Oracle: res.Violation.Oracle, Signature: res.Violation.Sig, Message: res.Violation.Msg,
-		Step: res.Violation.Step, Seed: res.Seed, Profile: res.Profile, Scale: jb.Scale, Target: jb.Prop, Config: res.Config, Tape: tape.Out, Hash: res.Hash}
+	var rf replayFile
+	if res.Violation != nil {
+		rf = replayFile{Property: res.Violation.Prop, Oracle: res.Violation.Oracle, Signature: res.Violation.Sig, Message: res.Violation.Msg,
+			Step: res.Violation.Step, Seed: res.Seed, Profile: res.Profile, Scale: jb.Scale, Target: jb.Prop, Config: res.Config, Tape: tape.Out, Hash: res.Hash}
+	} else {
+		// simulator trouble: kept for debugging the harness, never reported as a violation
+		msg := res.Infra
+		if len(msg) > 400 {
+			msg = msg[:400]
+		}
+		rf = replayFile{Property: "INFRA", Oracle: "infra", Signature: "infra", Message: msg,
+			Seed: res.Seed, Profile: res.Profile, Scale: jb.Scale, Target: jb.Prop, Config: res.Config, Tape: tape.Out, Hash: res.Hash}
+	}
 	for _, e := range run.sim.Tail(80) {
 		rf.Tail = append(rf.Tail, fmt.Sprintf("%d t=%d %c %d %s %s", e.Step, e.Now, e.Kind, e.ID, run.sim.SiteName(e.Site), e.Name))
 	}
@@ -255,7 +266,7 @@ func TestSimWorker(t *testing.T) {
 		}()
 		res.WallMS = time.Since(wall0).Milliseconds()
 		res.K = k
-		if res.Violation != nil && run != nil {
+		if (res.Violation != nil || res.Infra != "") && run != nil {
 			res.ReplayAt = writeReplay(&jb, &res, run, tape)
 		}
 		emit(res)
